@@ -206,6 +206,7 @@ func (x *exec) run() (f *report.Failure) {
 	x.m = fcmodel.New(cfg.SPE, fcmodel.Checkpoint{Root: ar, Epoch: cfg.FE}, fcmodel.Checkpoint{Root: ar, Epoch: cfg.JE},
 		fcmodel.Ref{Root: ar, Slot: cfg.AnchorSlot}, ap, cfg.Bal)
 	x.ever[ar] = true
+	var foreign *report.Failure
 	for i := range x.c.Ops {
 		op := &x.c.Ops[i]
 		for _, id := range []int{op.P, op.R, op.T} {
@@ -214,14 +215,31 @@ func (x *exec) run() (f *report.Failure) {
 			}
 		}
 		if f := x.do(op); f != nil {
-			x.res.FailOp = i
 			f.Msg = fmt.Sprintf("op %d %s: %s", i, op.String(), f.Msg)
-			return f
+			fatal := strings.HasPrefix(f.Sig, "harness") || strings.Contains(f.Sig, "/blocked") || strings.Contains(f.Sig, "/panic")
+			if fatal || Owns(x.o.Prop, f.Sig) {
+				if foreign != nil {
+					f.Msg += " [after an earlier divergence that is another property's subject: " + foreign.Sig + "]"
+				}
+				x.res.FailOp = i
+				return f
+			}
+			// A divergence owned by another property (e.g. a wrong prune seen by the head check) does not end the
+			// history: the comparisons this property owns are still made on what follows, so that a defect whose first
+			// symptom belongs elsewhere cannot hide its consequences here. Without such a later failure the case ends
+			// without a verdict, as before.
+			if foreign == nil {
+				foreign = f
+				x.res.FailOp = i
+			}
 		}
 		x.res.OpsDone++
 		for _, p := range x.prunes {
 			p.opsAfter++
 		}
+	}
+	if foreign != nil {
+		return foreign
 	}
 	if x.o.Sweep {
 		if f := x.sweep(); f != nil {
